@@ -118,6 +118,10 @@ def worker(args, scratch):
                     pool[kw["pool_key"]] = conn     # keep it open for a later request (possibly under another policy)
                 else:
                     conn.close()
+                if common.is_timeout(status):
+                    if not res["inconclusive"]:
+                        res["inconclusive"].append("client socket watchdog (60 s) fired while waiting for the proxy; not a verdict")
+                    continue
                 res["evaluations"] += 1
                 ups = w.upstream(vid)
                 relayed = len(ups) > 0
